@@ -23,6 +23,12 @@ func init() {
 			{ID: "C15.R2", Doc: "per-iteration values travel as go-arguments; the spawned literal does not mention the loop variables (go < 1.22)", Run: func(c *Ctx) {}},
 			{ID: "C15.R3", Doc: "lock set: every shared write in a spawned body lies between Lock and Unlock of one mutex declared outside the loop; parent leaves the result alone until Wait", Run: func(c *Ctx) {}},
 			{ID: "C15.R4", Doc: "MapAsync pairing: result[k] = f(k, x) for the spawn-time k, x; result pre-sized to the receiver's length (list)", Run: func(c *Ctx) {}},
+			{ID: "C15.R6", Doc: "the result container the workers fill: NewListOf(nil, n) holds exactly n slots (= C05.R9), Replace writes exactly the addressed slot (= C05.R5), Set is a plain map assignment (= C06.R1)", Run: func(c *Ctx) {
+				n := runAs(c, "C15.R6", c05ListOf, nil)
+				n += runAs(c, "C15.R6", c05Sequence, func(o *Obligation) bool { return strings.Contains(o.Construct, "(*list).Replace/") })
+				n += runAs(c, "C15.R6", c06Set, nil)
+				c.R.Floor("C15.R6", n, 4)
+			}},
 			{ID: "C15.R5", Doc: "PURE for every non-mutating method of both interfaces; no package-level state", Run: func(c *Ctx) {
 				names := implNames(c, func(n string) bool { return !mutatorNames[n] })
 				c.R.Floor("C15.R5", pureRule(c, "C15.R5", names), 100)
